@@ -176,6 +176,16 @@ def run_c05(rep, tier, seed):
                     if len(fy) >= 2:
                         lim["ymin"] = float(fy[0] + 0.01 * (fy[-1] - fy[0]))       # just above the lowest value
                         fin = fin & (ys >= lim["ymin"])
+                elif j % 5 in (3, 4) and j % 6 != 0 and not logy and fin.sum() >= 2:
+                    fy = np.unique(ys[fin])
+                    if len(fy) >= 2 and j % 5 == 3:
+                        # the requested lower limit lies above every point: no point is inside the range
+                        lim["ymin"] = float(fy[-1] + 0.5 * (fy[-1] - fy[0]))
+                        fin = fin & (ys >= lim["ymin"])
+                    elif len(fy) >= 2:
+                        # the requested lower limit IS the highest value: the grid starts there, the points below are outside
+                        lim["ymin"] = float(fy[-1])
+                        fin = fin & (ys >= lim["ymin"])
                 p = osyris.histogram2d(osyris.Array(xs, unit="m"), osyris.Array(ys, unit="s"), resolution={"x": n, "y": n} if j % 4 == 1 else n, logx=logx, logy=logy, plot=False, **lim)
             except Exception as e:
                 rep.mismatch({"module": "HistMachine", "field": "histogram2d-raises"}, f"histogram2d(auto limits) raised {type(e).__name__}: {e} on x={xs.tolist()} y={ys.tolist()}",
